@@ -278,3 +278,115 @@ for _sec, _last, _k in ((8, None, 7), (8, None, 8), (8, 5, 6), (None, None, 5), 
                statement='claim(until_epoch = k) followed by claim() pays the same total as a single claim(), for the same state',
                bounds='as L3; split epoch %s' % _k, covers=['ok'],
                replay=replay_scn(_sec, _last, actions=[('alice', _k), ('alice', None)]))(_ob_schedule(_sec, _last, _k))
+
+
+# ---------------------------------------------------------------- thorough tier: every shape of the epoch window
+# For a fixed claim cursor and farm span, ALL positions of a second weight snapshot (none, or any epoch after the first up to the
+# pending one at E+1) and ALL `until_epoch` values (none, or any epoch from the cursor to the current one) are enumerated; weights,
+# rates and budgets stay symbolic.
+
+def _shape(I, last_a):
+    af = 3 if last_a is None else last_a
+    sec_opts = [None] + list(range(af + 1, E + 2))
+    lo = af if last_a is None else last_a
+    until_opts = [None] + list(range(lo, E + 1))
+    sec = sec_opts[I.choose(len(sec_opts), 'second_snapshot')]
+    until = until_opts[I.choose(len(until_opts), 'until')]
+    return sec, until
+
+
+def _shape_of_model(m, last_a):
+    af = 3 if last_a is None else last_a
+    sec_opts = [None] + list(range(af + 1, E + 2))
+    lo = af if last_a is None else last_a
+    until_opts = [None] + list(range(lo, E + 1))
+    ch = m.get('_choices', {})
+    return sec_opts[ch.get('second_snapshot', 0)], until_opts[ch.get('until', 0)]
+
+
+def _ob_l3_family(last_a, farm):
+    def s(I):
+        sec, until = _shape(I, last_a)
+        sc = Scn(I, alice_second=sec, last_a=last_a, farms=(farm,))
+        b = sc.b
+        pre = b.snapshot()
+        U = E if until is None else until
+        exp, per_farm = sc.expected('alice', U)
+        f0 = sc.farms[0]
+        st, resp = sc.claim('alice', until)
+        I.outcome('shape:sec%s_until%s' % (sec, until))
+        if st != 'ok':
+            I.check('claim_refused_only_if_farm_exhausted', exp + f0['claimed0'] > f0['funded'])
+            return
+        I.cover('ok', HINT)
+        I.observe('status', 'ok')
+        observe_claim_state(I, sc)
+        paid = simp(b.get('alice', 'uusd') - pre.get('alice', 'uusd'))
+        I.check('pays_sum_of_epoch_shares', smt.Eq(paid, exp))
+        span = min(U, f0['end'] - 1) - max(sc.first['alice'], f0['start']) + 1
+        I.check('never_more_than_emitted', paid <= f0['rate'] * max(span, 0))
+        f = get_farm(I, 'f-1')
+        I.check('claimed_amount_grows_by_payment', smt.Eq(f.get('claimed_amount'), f0['claimed0'] + paid))
+        I.check('claimed_within_budget', f.get('claimed_amount') <= f0['funded'])
+        I.check('cursor_set_to_until', last_claimed_of(I, 'alice') == U)
+        I.check('contract_debited_exactly', smt.Eq(b.get(FM, 'uusd'), pre.get(FM, 'uusd') - paid))
+        after = weights_of(I, 'alice', LP1)
+        for e in range(U, E + 2):
+            I.check('weights_after_until_unchanged', smt.Eq(carry(after, e), carry(sc.a_snaps, e)))
+        I.check('bob_untouched', smt.And(*[smt.Eq(carry(weights_of(I, 'bob', LP1), e), carry(sc.b_snaps, e)) for e in range(1, E + 2)]))
+    return s
+
+
+def _replay_family(last_a, farm, two_claims=False):
+    def rb(label, m):
+        sec, until = _shape_of_model(m, last_a)
+        actions = [('alice', until), ('alice', None)] if two_claims else [('alice', until)]
+        return replay_scn(sec, last_a, farms=(farm,), actions=actions)(label, m)
+    return rb
+
+
+def _ob_schedule_family(last_a, farm):
+    def s(I):
+        sec, k = _shape(I, last_a)
+        if k is None:
+            raise Infeasible()
+        sc = Scn(I, alice_second=sec, last_a=last_a, farms=(farm,))
+        b = sc.b
+        start = sc.chain.snapshot()
+        pre = b.get('alice', 'uusd')
+        st1, _ = sc.claim('alice', None)
+        once = simp(b.get('alice', 'uusd') - pre)
+        sc.chain.restore(start)
+        b = bank_of(I)
+        sc.b = b
+        st2a, _ = sc.claim('alice', k)
+        st2b, _ = sc.claim('alice', None)
+        split = simp(b.get('alice', 'uusd') - pre)
+        if st1 != 'ok':
+            I.outcome('single_claim_rejected')
+            return
+        I.cover('ok', HINT)
+        I.observe('status', 'ok' if st2b == 'ok' else 'err')
+        observe_claim_state(I, sc, users=('alice',))
+        I.check('split_claims_succeed_when_single_does', st2a == 'ok' and st2b == 'ok')
+        if st2a == 'ok' and st2b == 'ok':
+            I.check('same_total_for_any_split', smt.Eq(split, once))
+    return s
+
+
+for _farm in ((4, 12), (2, 9), (6, 8)):
+    for _last in (None, 3, 4, 5, 6, 7, 8, 9):
+        obligation('C07', 'L4.claim_all_shapes_last%s_farm%d_%d' % (_last, _farm[0], _farm[1]),
+                   entries=['execute', 'claim', 'calculate_rewards', 'compute_start_from_epoch_for_address', 'compute_address_weights', 'compute_contract_weights',
+                            'compute_farm_emissions', 'sync_address_lp_weight_history', 'until_epoch_or_current', 'get_farms_by_lp_denom'],
+                   kind='S', tier='thorough',
+                   statement='as L3, for EVERY position of a second weight snapshot (none / any epoch after the first up to the pending one at E+1) and EVERY until_epoch '
+                             '(none / any epoch from the cursor to the current epoch)',
+                   bounds='current epoch 10; claim cursor %s; farm epochs [%d,%d); another user from epoch 6; weights, rate, budgets symbolic' % (_last, _farm[0], _farm[1]),
+                   covers=['ok'], replay=_replay_family(_last, _farm), opts={'max_paths': 60000})(_ob_l3_family(_last, _farm))
+    for _last in (None, 4, 6, 8):
+        obligation('C07', 'R2.schedule_all_splits_last%s_farm%d_%d' % (_last, _farm[0], _farm[1]),
+                   entries=['execute', 'claim', 'calculate_rewards', 'sync_address_lp_weight_history'], kind='R', tier='thorough',
+                   statement='claim(until_epoch = k) followed by claim() pays the same total as a single claim(), for every split epoch k and every position of a second snapshot',
+                   bounds='current epoch 10; claim cursor %s; farm epochs [%d,%d)' % (_last, _farm[0], _farm[1]), covers=['ok'],
+                   replay=_replay_family(_last, _farm, two_claims=True), opts={'max_paths': 60000})(_ob_schedule_family(_last, _farm))
